@@ -185,7 +185,23 @@ func c06Stable(w *h.World, f *Fix, repos []string, items, tags, subjects []strin
 	snap := func() string {
 		var sb strings.Builder
 		for _, r := range repos {
-			sb.WriteString("== " + r + "\n" + ReadTranscript(w, f, r, items, tags, subjects))
+			// A manifest that was deleted by digest while a present index still lists it keeps its body, and
+			// index.json has no record of the delete: whether GET by digest knows it depends on when the
+			// repository was last loaded from disk (the cache entry may expire between two passes), not on
+			// the collector. The statement leaves that answer open (as in C10), so it is not compared.
+			m := regM(w).Repos[r]
+			sb.WriteString("== " + r + "\n")
+			for _, ln := range strings.SplitAfter(ReadTranscript(w, f, r, items, tags, subjects), "\n") {
+				if m != nil && strings.HasPrefix(ln, "GET manifest ") {
+					n := strings.Fields(ln)[2]
+					_, inMans := m.Mans[n]
+					_, inCas := m.Cas[n]
+					if !inMans && inCas {
+						continue
+					}
+				}
+				sb.WriteString(ln)
+			}
 		}
 		if w.Dir != "" && w.Conf.Store == "dir" {
 			var lines []string
